@@ -1,15 +1,15 @@
 SPECIFICATION MCSpec
 CONSTANTS
- Addrs = {1, 2}
+ Addrs = {1}
  DefaultRetry = 5
  Slack = 0
  FreeMax = 10
  Dev = {}
  TrimOn = "match"
  Defect = "none"
- MaxFeeds = 4
+ MaxFeeds = 3
  MaxDials = 2
- MaxTime = 5
+ MaxTime = 2
  MaxSubs = 1
  FeedSet <- FramesMixed
  DialSet <- DialAll
